@@ -170,7 +170,7 @@ class Scenario:
 
     # -- operations: each mutates the LIVE simulation through its public API and the record cfg
     def ops(self):
-        return self.model_ops + ["rho", "rayleigh", "translate", "rotate", "symmetry", "setcoord", "nudge", "query", "replacemesh", "rebc",
+        return self.model_ops + ["rho", "rayleighM", "rayleighK", "translate", "rotate", "symmetry", "setcoord", "nudge", "query", "replacemesh", "rebc",
                                  "algo", "solve_save", "setiter0"] + self.extra_ops
 
     def apply(self, simu, cfg, op, live):
@@ -199,8 +199,10 @@ class Scenario:
         elif op == "rho":
             cfg["rho"] = 2.1 if cfg["rho"] == 1.3 else 1.3
             simu.rho = cfg["rho"]
-        elif op == "rayleigh":
-            cfg["rayleigh"] = (0.13, 0.07) if cfg["rayleigh"] == (0.0, 0.0) else (0.0, 0.0)
+        elif op in ("rayleighM", "rayleighK"):
+            # the two coefficients are toggled separately: mass-proportional only, stiffness-proportional only, both, none
+            a, b = cfg["rayleigh"]
+            cfg["rayleigh"] = ((0.13 if a == 0.0 else 0.0), b) if op == "rayleighM" else (a, (0.07 if b == 0.0 else 0.0))
             self.set_rayleigh(simu, cfg)
         elif op == "translate":
             mesh.Translate(0.3, -0.2, 0.0 if mesh.inDim < 3 else 0.1)
@@ -365,7 +367,7 @@ class ThermalScn(Scenario):
         return Simulations.Thermal(mesh, model)
 
     def ops(self):
-        return [o for o in super().ops() if o != "rayleigh"]
+        return [o for o in super().ops() if not o.startswith("rayleigh")]
 
 
 class HyperScn(Scenario):
@@ -388,7 +390,7 @@ class HyperScn(Scenario):
         return Simulations.HyperElastic(mesh, model)
 
     def ops(self):
-        return [o for o in super().ops() if o not in ("rayleigh",)]
+        return [o for o in super().ops() if not o.startswith("rayleigh")]
 
     def apply_bc(self, simu, cfg):
         simu.Bc_Init()
@@ -456,7 +458,7 @@ class BeamScn(Scenario):
         return Simulations.Beam(mesh, model)
 
     def ops(self):
-        return [o for o in super().ops() if o not in ("rotate", "symmetry", "rayleigh")]
+        return [o for o in super().ops() if o not in ("rotate", "symmetry", "rayleighM", "rayleighK")]
 
     def replacement_mesh(self, key, live):
         # a beam simulation works on beam elements: the constructor converts the mesh, an assigned mesh must be converted too
@@ -559,7 +561,7 @@ class PhaseFieldScn(Scenario):
         return Simulations.PhaseField(mesh, model)
 
     def ops(self):
-        return [o for o in super().ops() if o not in ("rayleigh", "algo", "rho")]
+        return [o for o in super().ops() if o not in ("rayleighM", "rayleighK", "algo", "rho")]
 
     def apply_bc(self, simu, cfg):
         simu.Bc_Init()
@@ -650,7 +652,7 @@ class InElasticScn(HyperScn):
         return Simulations.InElastic(mesh, model)
 
     def ops(self):
-        return [o for o in Scenario.ops(self) if o not in ("rayleigh", "algo", "rho")]
+        return [o for o in Scenario.ops(self) if o not in ("rayleighM", "rayleighK", "algo", "rho")]
 
     def observe(self, simu, cfg, solve=True):
         obs = {}
@@ -697,7 +699,7 @@ class WeakFormsScn(Scenario):
         return simu
 
     def ops(self):
-        return [o for o in super().ops() if o not in ("rayleigh", "rho", "replacemesh")]
+        return [o for o in super().ops() if o not in ("rayleighM", "rayleighK", "rho", "replacemesh")]
 
     def apply(self, simu, cfg, op, live):
         if op == "k":
@@ -764,7 +766,7 @@ def describe(tier, seed):
     depth = 2 if tier == "quick" else 3
     return {
         "rule": f"E2 unmerged: for each of {len(QUICK_SCN)} simulation scenarios (elastic 2D/3D, transversely isotropic with axes, thermal, hyperelastic, beam 2D, beam 3D with a section axis, phase-field with history / damage-based irreversibility, history-dependent material (InElastic) below yield, user weak forms (WeakForms) with a coefficient its forms close over) every sequence of its public mutating operations "
-                f"(11-18 per scenario: each model parameter, rho, Rayleigh coefficients, Translate, Rotate, Symmetry, coordinate assignment, mesh replacement, "
+                f"(11-19 per scenario: each model parameter, rho, each Rayleigh coefficient toggled separately, Translate, Rotate, Symmetry, coordinate assignment, mesh replacement, "
                 f"re-entered conditions, algorithm switch, solve+save, restore iteration 0) of length {depth} with an observation (matrices, solve, results) "
                 f"after every operation, and of length {depth + 1 if tier == 'quick' else depth} with one observation at the end; caches are primed by an observation before the first operation. "
                 "Shared-model regime: all ordered pairs of parameter assignments on a model observed by two simulations, four observation patterns. "
